@@ -1,6 +1,8 @@
 (* Extraction of the executable C16 model for the correspondence check.
    ExtrOcamlBasic + ExtrOcamlString only; Z / N / positive stay inductive. *)
 From Coq Require Import Extraction ExtrOcamlBasic ExtrOcamlString ZArith List String.
-From Acme.C16 Require Import Model.
+From Acme.C16 Require Import Model ModelStr.
 Extraction Language OCaml.
-Extraction "extracted/c16_model.ml" md blocks rows_sigs types_listed units_listed enums_listed.
+Extraction "extracted/c16_model.ml" md blocks rows_sigs types_listed units_listed enums_listed
+  net_string bus_string nif_string node_string msg_string sig_string type_string unit_string enum_string
+  value_string builder_string.
